@@ -56,6 +56,9 @@ TARGETS = {
     "C19": ["placement_match_coherent", "placement_content_prefix", "placement_finish_valid", "parse_valid",
             "walk_events_admissible", "parse_no_internal", "walk_no_internal"],
 }
+# theorems about a `Parser` whose rule guard (`P.rulesOk`) is discharged too: for the parsers `DOMParser.from_schema(S)` of
+# the family schemas (lean/Gen/Parsers.lean); emitted with the suffix `_from_schema`
+PARSER_TARGETS = {"C19": ["parse_no_internal", "walk_no_internal"]}
 EXTRA = {}   # property → hand-written Lean text appended before `end`
 
 
@@ -114,11 +117,13 @@ def gen(prop):
            "-/",
            "import Props.%s" % prop, "import Props.Family",
            "import Gen.SchemaBuilds" if prop in ("C06", "C07", "C14") else "import Gen.SchemaFacts"]
+    if prop in PARSER_TARGETS:
+        out.append("import Gen.Parsers")
     out += EXTRA.get(prop, {}).get("imports", [])
     out += ["namespace PM.Family.%s" % prop]
     out += opens + ["open %s" % ns, "open PM.Gen PM.Family", ""]
     out += EXTRA.get(prop, {}).get("pre", [])
-    for name in TARGETS[prop]:
+    for name, with_rules in [(n, False) for n in TARGETS[prop]] + [(n, True) for n in PARSER_TARGETS.get(prop, [])]:
         sig = theorem_sig(src, name)
         binders, concl = split_binders(sig)
         if any(re.search(r"WrapWF S d q", b) for b in binders):
@@ -143,6 +148,9 @@ def gen(prop):
                 args.append("(S.dfa t)")
                 continue
             hit = None
+            if with_rules and ty == "P.rulesOk = true":
+                args += ["(family_rulesOk P hS).1"] * len(names)
+                continue
             for pat, term in GUARDS:
                 if re.fullmatch(pat, ty):
                     hit = term
@@ -169,6 +177,10 @@ def gen(prop):
                 new_binders.append("@HS@")
         fam = "domFamilySchemas" if used_dom else "familySchemas"
         F = "(family_facts _ (domFamily_sub _ hS))" if used_dom else "(family_facts _ hS)"
+        if with_rules:
+            assert not used_dom and subject == "P.S"
+            F = "(family_facts _ (family_rulesOk P hS).2)"
+            new_binders = ["(hS : P ∈ familyParsers)" if b == "@HS@" else b for b in new_binders]
         new_binders = ["(hS : %s ∈ %s)" % (subject, fam) if b == "@HS@" else b for b in new_binders]
         if any("family_compiles" in a for a in args):
             # the automata are those of the compiled schema
@@ -176,7 +188,7 @@ def gen(prop):
         args = [a.format(F=F) for a in args]
         out.append("/-- `%s.%s` with its schema guards discharged for the bundled schema family -/" % (ns, name))
         # keep the original line structure of the binders roughly: wrap at ~110 columns
-        lines, cur = [], "theorem %s" % name
+        lines, cur = [], "theorem %s%s" % (name, "_from_schema" if with_rules else "")
         for b in new_binders:
             if len(cur) + 1 + len(b) > 112:
                 lines.append(cur)
